@@ -42,6 +42,13 @@ def gen_rows(ctx, fmt, max_rows):
                 t[fname] = str(int(t[fname]))
             if kind in ("int", "sint", "optint"):
                 t[fname] = str(int(t[fname]))
+            if kind in ("int", "sint", "pos1") and tape.boolean("pow10", 1, 5):
+                # widths are derived with log10: values at and next to powers of ten, up to the int64 range
+                k = 1 + tape.draw(18, "pow10.k")
+                v = 10 ** k + (tape.draw(5, "pow10.d") - 2)
+                if kind == "sint" and tape.boolean("pow10.neg", 1, 3):
+                    v = -v
+                t[fname] = str(max(v, 1) if kind != "sint" else v)
         if fmt.layout == "fastaw":
             n = FASTA_LENGTHS[tape.draw(len(FASTA_LENGTHS), "fa.len")]
             t["sequence"] = "".join("ACGT"[(i * 7 + n) % 4] for i in range(n))
